@@ -107,3 +107,73 @@ Example sanity_tls :
      res_eqb (call_with src_pure (sock_base (dgram_world 3 9)) 50 "tlsSockWrapper.SetDeadline" [VN 33; VN 1])
              (out_tls_setdl (dgram_world 3 9) 33 (VN 1))] = true.
 Proof. vm_compute. reflexivity. Qed.
+
+(* ---------------------------------------------------------------- serial.go: serialPortWrapper *)
+
+Definition src_ser_tmo : N := N.of_nat (List.length src_error_codes) + 5.   (* serial.ErrTimeout *)
+
+Definition port_hyp (fe : fenv) (T : tworld) : Prop :=
+  (forall w, fe "time.Now" [w] = GOk [fst (t_now T w); VN (snd (t_now T w))]) /\
+  (forall w n, fe "port.Read" [w; VN n] = let '(w', got, e) := t_readfull T w n in GOk [w'; vbytes got; VN e]) /\
+  (forall w bs, fe "port.Write" [w; vbytes bs] = let '(w', n, e) := t_write T w bs in GOk [w'; VN n; VN e]) /\
+  (forall w, fe "port.Close" [w] = GOk [fst (t_close T w); VN (snd (t_close T w))]).
+
+Definition port_base (T : tworld) : fenv := fun name args =>
+  let is s := String.eqb name s in
+  if is "time.Now" then
+    match args with [w] => GOk [fst (t_now T w); VN (snd (t_now T w))] | _ => Stuck end
+  else if is "port.Read" then
+    match args with [w; VN n] => let '(w', got, e) := t_readfull T w n in GOk [w'; vbytes got; VN e] | _ => Stuck end
+  else if is "port.Write" then
+    match args with [w; VL l] => let '(w', n, e) := t_write T w (unvn l) in GOk [w'; VN n; VN e] | _ => Stuck end
+  else if is "port.Close" then
+    match args with [w] => GOk [fst (t_close T w); VN (snd (t_close T w))] | _ => Stuck end
+  else Stuck.
+
+Definition out_serial_read (T : tworld) (deadline : N) (buf : list N) (w : val) : GoLite.res (list val) :=
+  let '(buf', w', cnt, e) := t_serial_read T (c_timedout src_codes) src_ser_tmo deadline buf w in
+  GOk [VN deadline; vbytes buf'; w'; VN cnt; VN e].
+Definition out_serial_write (T : tworld) (deadline : N) (buf : list N) (w : val) : GoLite.res (list val) :=
+  let '(w', n, e) := t_write T w buf in GOk [VN deadline; w'; VN n; VN e].
+(* SetDeadline only stores the instant: the port is not touched *)
+Definition out_serial_setdl (d : N) (w : val) : GoLite.res (list val) := GOk [VN d; w; VN 0].
+Definition out_serial_close (T : tworld) (deadline : N) (w : val) : GoLite.res (list val) :=
+  GOk [VN deadline; fst (t_close T w); VN (snd (t_close T w))].
+
+(* a port whose clock is the first number of the world and which has [avail] bytes, then times out like the driver *)
+Definition port_world (e : N) : tworld := {|
+  t_now := fun w => (w, match w with VL (VN c :: _) => c | _ => 0 end);
+  t_sleep := fun w _ => w;
+  t_setdl := fun w _ => (w, 0);
+  t_write := fun w bs => (w, lenN bs, e);
+  t_readfull := fun w n =>
+    match w with
+    | VL (VN c :: rest) =>
+        match unbytes rest with
+        | [] => (w, [], e)
+        | s => let k := N.to_nat (N.min 2 n) in (VL (VN c :: map VN (skipn k s)), firstn k s, 0)
+        end
+    | _ => (w, [], e)
+    end;
+  t_close := fun w => (w, e)
+|}.
+
+Example sanity_serial :
+  forallb (fun b => b)
+    [res_eqb (call_with src_pure (port_base (port_world 23)) 50 "serialPortWrapper.Read" [VN 100; vbytes (zeros 4); VL [VN 50; VN 7; VN 8; VN 9]])
+             (out_serial_read (port_world 23) 100 (zeros 4) (VL [VN 50; VN 7; VN 8; VN 9]));
+     res_eqb (call_with src_pure (port_base (port_world 23)) 50 "serialPortWrapper.Read" [VN 100; vbytes (zeros 4); VL [VN 100; VN 7]])
+             (out_serial_read (port_world 23) 100 (zeros 4) (VL [VN 100; VN 7]));
+     res_eqb (call_with src_pure (port_base (port_world 23)) 50 "serialPortWrapper.Read" [VN 100; vbytes (zeros 4); VL [VN 101; VN 7]])
+             (out_serial_read (port_world 23) 100 (zeros 4) (VL [VN 101; VN 7]));
+     res_eqb (call_with src_pure (port_base (port_world 23)) 50 "serialPortWrapper.Read" [VN 100; vbytes (zeros 4); VL [VN 5]])
+             (out_serial_read (port_world 23) 100 (zeros 4) (VL [VN 5]));
+     res_eqb (call_with src_pure (port_base (port_world 9)) 50 "serialPortWrapper.Read" [VN 100; vbytes (zeros 4); VL [VN 5]])
+             (out_serial_read (port_world 9) 100 (zeros 4) (VL [VN 5]));
+     res_eqb (call_with src_pure (port_base (port_world 9)) 50 "serialPortWrapper.Write" [VN 100; vbytes [1; 2]; VL [VN 5]])
+             (out_serial_write (port_world 9) 100 [1; 2] (VL [VN 5]));
+     res_eqb (call_with src_pure (port_base (port_world 9)) 50 "serialPortWrapper.SetDeadline" [VN 100; VN 777; VL [VN 5]])
+             (out_serial_setdl 777 (VL [VN 5]));
+     res_eqb (call_with src_pure (port_base (port_world 9)) 50 "serialPortWrapper.Close" [VN 100; VL [VN 5]])
+             (out_serial_close (port_world 9) 100 (VL [VN 5]))] = true.
+Proof. vm_compute. reflexivity. Qed.
